@@ -214,12 +214,22 @@ def site_facts(cx, aff, bb):
     from analysis.flow import edge_facts_at
     base = aff.facts_at(bb)
     # re-derive which local/variant each call_ok came from (needed for decode instantiation)
-    for f in base:
-        if f[0] == "call_ok":
-            fs.append(f)
-        else:
-            fs.append(f)
     extra = []
+    for f in base:
+        fs.append(f)
+        if f[0] == "call_ok":
+            # Ok of a fallible reservation on v: capacity >= len(v) + additional exists as a usize, so that sum cannot overflow
+            cp, ct, aforms, cbb = f[1], f[2], f[3], f[4]
+            summ = cx.summaries.get(cp, {})
+            ri = summ.get("reserves") or ((0, 1) if cp.rsplit("::", 1)[-1] in ("try_reserve", "try_reserve_exact") else None)
+            if ri is not None and len(aforms) > max(ri) and aforms[ri[1]] is not None:
+                stc = aff.state_at(term_pt(b, cbb))
+                vp = op_place(ct["args"][ri[0]])
+                lc = stc.get(("len", aff.len_key(vp))) if vp is not None else None
+                if lc is None:
+                    lc = aff.len_form(stc, ct["args"][ri[0]])
+                if lc is not None:
+                    extra.append(("nooverflow", lc.add(aforms[ri[1]])))
     for s, vals, succ in edge_facts_at(b, bb):
         d = aff.switch_desc.get(s)
         if not d or d[0] != "discr" or "call" not in d[1]:
@@ -369,6 +379,16 @@ def analyse_body(cx, path):
             ob("index", ok, what, "slice range %s..%s of a buffer of length %s can be out of range for hostile length fields (%s)"
                % (s, e if has_e else "", blen, "; ".join(why)), t.get("span"), "(iv) " + "; ".join(why))
             continue
+        # ---- slice.split_at(n) panics when n > len
+        if name in ("split_at", "split_at_mut", "split_first_chunk", "split_last_chunk") and ("[T]" in c["path"] or "slice" in c["path"]) and len(args) == 2:
+            st = aff.state_at(term_pt(b, bb))
+            fs = site_facts(cx, aff, bb)
+            blen = aff._slice_len(st, args[0])
+            n = aff.op_form(st, args[1])
+            ok = name.startswith("split_at") and blen is not None and n is not None and entails_le(fs, n, blen)
+            ob("index", ok, label("split", bb), "`%s(%s)` of a slice of length %s can be out of range for hostile length fields" % (name, n, blen), t.get("span"),
+               "(iv) mid %s <= %s" % (n, blen))
+            continue
         # ---- unwrap / expect
         if name in ("unwrap", "expect") and ("Result" in c["path"] or "Option" in c["path"]):
             e = sym.op(args[0])
@@ -440,6 +460,8 @@ def analyse_body(cx, path):
                         add = aforms[ri[1]]
                         stc = aff.state_at(term_pt(b, f[4]))
                         lc = stc.get(("len", root))
+                        if lc is None:
+                            lc = aff.len_form(stc, ct["args"][ri[0]])   # a caller-owned vector: its length is the symbolic len(v)
                         if add is None or lc is None:
                             continue
                         if entails_le(fs, n, lc.add(add)):
@@ -632,6 +654,22 @@ def accept_guards(cx, facts, R):
             base_arg = a.root_local(op_place(t["args"][0])) == 1
             if rb and base_arg:
                 rows.append((str(rb[1]), str(rb[2])))
+        # payload = &buf[48..E]; (query, body) = payload.split_at(n)  ==  buf[48..48+n], buf[48+n..E]
+        for i, t in b.calls():
+            if t["callee"]["name"] != "split_at" or len(t["args"]) != 2:
+                continue
+            st = a.state_at(term_pt(b, i))
+            src = a.root_local(op_place(t["args"][0]))
+            info = a.call_info.get(src)
+            n = a.op_form(st, t["args"][1])
+            if info is None or n is None or info[1]["callee"]["name"] != "index" or a.root_local(op_place(info[1]["args"][0])) != 1:
+                continue
+            rb = a.range_bounds(a.state_at(term_pt(b, info[0])), info[1]["args"][1])
+            if rb and rb[1] is not None and rb[2] is not None and (str(rb[1]), str(rb[2])) in rows:
+                rows.remove((str(rb[1]), str(rb[2])))
+                rows.append((str(rb[1]), str(rb[1].add(n))))
+                rows.append((str(rb[1].add(n)), str(rb[2])))
+
         def nm(s_):
             return s_
         q = [r for r in rows if r[0] == "48" and r[1].endswith("query_length + 48") and "body_length" not in r[1]]
@@ -769,6 +807,9 @@ def stream_fills_frame(cx, facts, R):
                         "the header handed to Header::decode is not the buffer a successful read_exact filled", t.get("span"))
                 for k, nm in ((1, "query"), (2, "body")):
                     vexpr = render(sym.op(t["args"][k]))
+                    # (guards are spelled with temporaries resolved by reaching definitions; spell the vector the same way too)
+                    from analysis.sym import SymAt
+                    vexprs = {vexpr, render(SymAt(sym, i, len(b.blocks[i]["stmts"]), named=False).op(t["args"][k]))}
                     vp = op_place(t["args"][k])
                     vl = a.root_local(vp) if vp is not None else None
                     defs = b.defs_of(vl) if vl is not None else []
@@ -781,9 +822,9 @@ def stream_fills_frame(cx, facts, R):
                             e = f["expr"]
                             if e[0] == "call" and e[1].endswith("::branch") and str(f["val"]) == "Continue":
                                 c = _strip_ready(e[2][0])
-                                if c[0] == "call" and (c[1] == LOCAL_FILL or c[1] in EXACT_FILL_AXIOM) and render(c[2][1]) == vexpr:
+                                if c[0] == "call" and (c[1] == LOCAL_FILL or c[1] in EXACT_FILL_AXIOM) and render(c[2][1]) in vexprs:
                                     ev.add((bb, 0))
-                            if e[0] == "call" and e[1].endswith("is_empty") and f["val"] is True and render(e[2][0]) == vexpr:
+                            if e[0] == "call" and e[1].endswith("is_empty") and f["val"] is True and render(e[2][0]) in vexprs:
                                 ev.add((bb, 0))
                     # ... or an edge on which the vector's length is known to be 0 (`if query_len > 0 { read }`)
                     stn = a.state_at(term_pt(b, i))
